@@ -262,7 +262,9 @@ func c19(c *Ctx) {
 		if irs[0] == "mutated" {
 			c.fail("C19/mutates-arguments/"+hc.fn, "the helper wrote into one of its arguments (a slice's backing array or a map): equal arguments no longer give equal results for the caller", map[string]string{"request": req})
 		}
-		if irs[0] == "panic" {
+		if irs[0] == "mutated" {
+			// reported above
+		} else if irs[0] == "panic" {
 			c.fail("C19/panic/"+hc.fn, "helper panics", map[string]string{"request": req})
 		} else if hc.obj == nil && hasX && irs[0] != "err" {
 			c.fail("C19/unsupported-accepted/"+hc.fn, "an argument of an unsupported type does not yield an error: "+clip(decodeReply(irs[0]), 80), map[string]string{"request": req})
